@@ -1,6 +1,6 @@
 (* PropsC20.v — C20: numeric path segments index lists only within [0, MaxIdx].
    Only statements, each closed by [exact], with Print Assumptions. *)
-From Ucfg Require Import Base ParseInt Consts Field CorrC20 ProofsField.
+From Ucfg Require Import Base ParseInt Consts Field CorrC20 ProofsField Tree PathOps ProofsTree.
 
 (* A segment is a list index exactly when numeric keys are off and it is an integer
    literal (every syntax of strconv.ParseInt base 0) between 0 and the maximum index. *)
@@ -37,6 +37,15 @@ Theorem c20_path_index_bound : forall input sep maxIdx numKeys escape i,
   In (FIdx i) (parse_path input sep maxIdx numKeys escape) -> 0 <= i <= maxIdx.
 Proof. exact parse_path_idx_bound. Qed.
 Print Assumptions c20_path_index_bound.
+
+(* ... consequently no single key makes a list grow beyond maxIdx+1 entries: writing at an
+   index that came out of path parsing grows the list to exactly max(len, idx+1) *)
+Theorem c20_growth_bound : forall input sep maxIdx numKeys escape i pp d a ov v d' a',
+  In (FIdx i) (parse_path input sep maxIdx numKeys escape) ->
+  set_field (FIdx i) pp (VSub d a) ov v = Ok (VSub d' a') ->
+  lenZ (arr_of a') <= Z.max (lenZ (arr_of a)) (maxIdx + 1).
+Proof. exact parsed_index_growth. Qed.
+Print Assumptions c20_growth_bound.
 
 (* The boolean property evaluated by the check on the implementation's output is
    satisfied by the model on every input (so a flagged case is a real deviation). *)
